@@ -1,11 +1,13 @@
 #include "vselftest.h"
 extern "C" {
+int k_edit1(unsigned, const char*, unsigned long, int); int c_k_edit1(unsigned, const char*, unsigned long, int);
 int k_resolve_c(const char*, unsigned long); int c_k_resolve_c(const char*, unsigned long);
 int k_resolve_m(const char*, unsigned long, int); int c_k_resolve_m(const char*, unsigned long, int);
 unsigned long k_escape(const char*, unsigned long, char*, unsigned long); unsigned long c_k_escape(const char*, unsigned long, char*, unsigned long);
 unsigned mj_kind; unsigned long mj_size; unsigned mj_has_key; static unsigned long log_[8]; static int nlog;
 void mj_at_index(unsigned long i) { if (nlog < 8) log_[nlog++] = i; }
 void mj_at_key(const char* s, unsigned long n) { if (nlog < 8) log_[nlog++] = 1000 + n + (n ? (unsigned char)s[0] * 16 : 0); }
+void mj_op(unsigned kind, unsigned long index, const char* key, unsigned long keylen) { if (nlog < 8) log_[nlog++] = 9000 + kind * 100 + index % 100 + keylen; }
 void mj_emplace(const char* s, unsigned long n) { if (nlog < 8) log_[nlog++] = 5000 + n + (n ? (unsigned char)s[0] * 16 : 0); }
 }
 ST_MAIN_BEGIN
@@ -15,6 +17,7 @@ ST_MAIN_BEGIN
     mj_kind = k; mj_size = sz; mj_has_key = hk; unsigned long n = strlen(t);
     nlog = 0; int a = k_resolve_c(t, n); unsigned long la[8]; int na = nlog; memcpy(la, log_, sizeof la); nlog = 0; int b = c_k_resolve_c(t, n); ST_CHECK(a == b && na == nlog && !memcmp(la, log_, na * sizeof(long)));
     for (int cr = 0; cr < 2; cr++) { nlog = 0; a = k_resolve_m(t, n, cr); na = nlog; memcpy(la, log_, sizeof la); nlog = 0; b = c_k_resolve_m(t, n, cr); ST_CHECK(a == b && na == nlog && !memcmp(la, log_, na * sizeof(long))); }
+    for (unsigned w = 0; w < 4; w++) for (int cr = 0; cr < 2; cr++) { unsigned long sz0 = mj_size; nlog = 0; a = k_edit1(w, t, n, cr); na = nlog; memcpy(la, log_, sizeof la); mj_size = sz0; nlog = 0; b = c_k_edit1(w, t, n, cr); mj_size = sz0; ST_CHECK(a == b && na == nlog && !memcmp(la, log_, na * sizeof(long))); }
     char o1[64] = {0}, o2[64] = {0}; ST_CHECK(k_escape(t, n, o1, 64) == c_k_escape(t, n, o2, 64) && !memcmp(o1, o2, 64)); }
   for (int it = 0; it < 100000; it++) { char t[8]; unsigned long n = st_rand() % 8; for (unsigned long i = 0; i < n; i++) t[i] = st_rand() % 4 ? '0' + st_rand() % 10 : "-~/a+ "[st_rand() % 6];
     mj_kind = st_rand() % 3; mj_size = st_rand() % 200; mj_has_key = st_rand() % 2; int cr = st_rand() % 2;
